@@ -175,7 +175,8 @@ def run_tlc(module, cfg=None, workers=None, env=None, cwd=None, extra=(), timeou
     """Run TLC on spec/<module>.tla with spec/<cfg>. Returns TLCResult (never raises on a violation)."""
     cwd = cwd or SPEC
     meta = tempfile.mkdtemp(prefix="tlc.", dir=workdir())
-    jopts = ["-XX:+UseSerialGC" if str(workers) == "1" else "-XX:+UseParallelGC", "-Xmx" + heap, "-Xss256m"]
+    # (TLC leaves an empty directory in java.io.tmpdir per run: keep them in the run's own scratch, which is removed afterwards)
+    jopts = ["-XX:+UseSerialGC" if str(workers) == "1" else "-XX:+UseParallelGC", "-Xmx" + heap, "-Xss256m", "-Djava.io.tmpdir=" + meta]
     if dfs:
         jopts.append("-Dtlc2.tool.queue.IStateQueue=StateDeque")
     cmd = ["java"] + jopts + ["-cp", _TLC_JAR, "tlc2.TLC", "-metadir", meta, "-noGenerateSpecTE",
